@@ -46,17 +46,28 @@ static inline bool ovB2(const Box2& a, const Box2& b) {
 static inline bool ov(const Box& a, const Box& b) { return ovBB(a, b); }
 static inline bool ov(const Box& a, const vec3& p) { return ovBP(a, p); }
 
-// Thread-safe recorder (the tbb variant runs queries in parallel).
+// Recorder usable from parallel queries: per-thread buffers in PAR builds
+// (tbb::combinable, as the library's own recorders do), one vector otherwise.
+#if (MANIFOLD_PAR == 1)
 struct LockRec {
   using Local = Pairs;
-  std::mutex mu;
+  tbb::combinable<Pairs> tls;
   Pairs all;
-  void record(int q, int l, Local& loc) {
-    std::lock_guard<std::mutex> g(mu);
-    loc.emplace_back(q, l);
+  void record(int q, int l, Local& loc) { loc.emplace_back(q, l); }
+  Local& local() { return tls.local(); }
+  void finish() {
+    tls.combine_each([&](const Pairs& p) { all.insert(all.end(), p.begin(), p.end()); });
   }
-  Local& local() { return all; }
 };
+#else
+struct LockRec {
+  using Local = Pairs;
+  Pairs all;
+  void record(int q, int l, Local& loc) { loc.emplace_back(q, l); }
+  Local& local() { return all; }
+  void finish() {}
+};
+#endif
 
 // JSON-safe number (non-finite values become strings, so a journal line
 // carrying a witness always parses)
@@ -135,6 +146,8 @@ static bool checkQueries(vh::Ctx& c, const Collider& col, const ColCase& cc, con
     auto f = [&qv](const int i) { return qv[i]; };
     col.Collisions<Self>(rec, f, (int)nq, par);
   }
+  rec.finish();
+  c.heartbeat();
   Pairs exp = bruteCollider(cc.leaves, qs, nq, Self);
   c.count("collider_queries", (long long)nq);
   c.count("collider_pairs_expected", (long long)exp.size());
@@ -748,6 +761,8 @@ static bool checkBvh(vh::Ctx& c, const std::vector<Box2>& boxes, const std::vect
       LockRec rec;
       auto qf = [&](int i) { return qs[i]; };
       BVHCollisions(bvh, rec, qf, (int)qs.size(), par);
+      rec.finish();
+      c.heartbeat();
       for (auto& p : rec.all) {
         if (p.second < 0 || p.second >= n) {
           vh::J d;
